@@ -7,11 +7,12 @@ D = 'mindsdb'
 TARGETS = ['MindsVerif.Props.C19']
 _P = 'MindsVerif.Props.C19.'
 THEOREMS = [_P + n for n in (
-    'C19_caret_partial', 'C19_caret_source', 'C19_eof_caret', 'C19_suggestions_checked',
+    'C19_caret_partial', 'C19_caret_source', 'C19_eof_caret', 'C19_variant_agrees', 'C19_caret_partial_v',
+    'C19_eof_caret_v', 'C19_suggestions_checked',
     'C19_suggestions_sentence_mindsdb', 'C19_lexer_caret', 'C19_bad_token_prefix',
     'C19_bad_token_prefix_mindsdb', 'C19_bad_token_deterministic', 'C19_no_accepted_continuation',
     'C19_bad_token_deterministic_mindsdb', 'C19_suggestion_is_row_key', 'C19_key_classification',
-    'C19_shift_key_extends', 'C19_key_totals_mindsdb', 'C19_full_false',
+    'C19_shift_key_extends', 'C19_kept_token_extends', 'C19_key_totals_mindsdb', 'C19_full_false',
     'C19_witness_short_caret', 'C19_witness_newline_in_token', 'C19_witness_truncation',
     'C19_witness_replace_previous', 'C19_witness_replace_index0')]
 ASSUME = [
@@ -256,7 +257,9 @@ def probe_case(text, earley, kind=None, msg=None):
     bad_end = max(t.end for t in toks if t.lineno == toks[kk].lineno)
     nl_tok = any('\n' in sql[t.index:t.end] and t.index < bad_end for t in toks) or any(
         '\n' in m.group(0) and m.group(0).startswith('/*') and m.start() < bad_end for m in COMMENT_RE.finditer(sql))
-    ctx = dict(msg=msg, bad_index=k, parser_bad_index=pk, rewritten=rew_near, newline_in_token=nl_tok)
+    nl_val = any('\n' in sql[t.index:t.end] and t.index < bad_end for t in toks)
+    ctx = dict(msg=msg, bad_index=k, parser_bad_index=pk, rewritten=rew_near, newline_in_token=nl_tok,
+               newline_in_value=nl_val)
     if not shown or not pm['body_ok']:
         out.append(fail('no-source-line', 'message shows no source line', text, **ctx))
         return out
@@ -372,6 +375,10 @@ def kf_match(k, f):
         return bool(f.get('rewritten')) and not f.get('newline_in_token')
     if need == 'newline-inside-token-or-comment':
         return bool(f.get('newline_in_token'))
+    if need == 'newline-inside-token-value':
+        # since repo 582d86b comments advance lineno: only a TOKEN (string, quoted id, variable, two-word
+        # keyword) whose text contains a newline is covered
+        return bool(f.get('newline_in_value'))
     if need == 'first-line-of-multiline':
         return f.get('line') == 0 and f.get('nlines', 0) > 1 and f.get('col') is not None
     if need == 'regex-residue':
@@ -490,6 +497,7 @@ def run(chk):
             fs = probe_case(k['witness']['text'], E)
             k['_reproduced'] = any(kf_match(k, f) for f in fs)
     lines, metas, dist = [], [], {}
+    klines, kmetas = [], []
     lay_bad = None
     src_bad = None
     for case in case_stream(rng, n_mut, n_sent, G):
@@ -518,6 +526,9 @@ def run(chk):
                     src_bad = text
                 lines.append(model_line_syn(R, info))
                 metas.append((case, msg))
+                # Φ19 / _can_take: the expected tokens stored by MindsDBParser.error vs the model's keptExpected
+                klines.append('K ' + ' '.join(str(R.tid[t.type]) for t in info['toks']))
+                kmetas.append((case, ','.join(str(x) for x in sorted(R.tid[x] for x in info['expected']))))
                 nl = len({t.lineno for t in info['toks']})
                 dist['corr/lines:%s' % min(nl, 4)] = dist.get('corr/lines:%s' % min(nl, 4), 0) + 1
                 b = 'eof' if info['bad'] is None else 'tok'
@@ -549,6 +560,17 @@ def run(chk):
         chk.corr_result('err-message', len(lines), diverged, first, dist)
     except Exception as e:
         chk.oblige('corr:err-message', 'correspondence', False, 'driver failed: %s' % e)
+    try:
+        outs = common.lean_run('Err', klines)
+        diverged, first = 0, None
+        for (case, want), o in zip(kmetas, outs):
+            if o != want:
+                diverged += 1
+                if first is None:
+                    first = dict(text=case['text'], src=case['src'], impl=want, model=o)
+        chk.corr_result('can-take', len(klines), diverged, first, {})
+    except Exception as e:
+        chk.oblige('corr:can-take', 'correspondence', False, 'driver failed: %s' % e)
     for (case, want) in metas[:2] + metas[-2:]:
         chk.samples.append(dict(src=case['src'], text=case['text'][:200], message=want[:300]))
     chk.samples.append(dict(theorem='C19_caret_partial: Layout toks → bad ∈ toks → errorLocation toks (some bad) = hdr :: (ctx ++ '
